@@ -255,7 +255,8 @@ func parserLayers(tier string, menu Menu) []Layer {
 		}
 	}
 	return []Layer{
-		{Name: "large", Kinds: Kinds, CfgsFn: largeConfigs, Inputs: LargeSet(140000), Menu: menu.and(Menu{ReadFrom: true, NTL: true, ParseNil: true}), Bound: 1, CfgPerShard: 1, NoTrack: true},
+		{Name: "large", Kinds: HashKinds, CfgsFn: largeConfigs, Inputs: LargeSet(140000), Menu: menu.and(Menu{ReadFrom: true, NTL: true, ParseNil: true}), Bound: 1, CfgPerShard: 1, NoTrack: true},
+		{Name: "large-sa", Kinds: []string{"GSAP", "OSAP"}, CfgsFn: largeConfigs, Inputs: LargeSet(70000), Menu: menu.and(Menu{ReadFrom: true, NTL: true, ParseNil: true}), Bound: 0, CfgPerShard: 1, NoTrack: true},
 		{Name: "hash-b0", Kinds: HashKinds, BufSizes: allQuickBuf, Level: 0, Inputs: Union(Binary(8), Ternary(5), ZeroA(6)), Menu: menu, Bound: 0},
 		{Name: "hash-b1", Kinds: HashKinds, BufSizes: []int{2, 3, 5, 8}, Level: 0, Inputs: Union(Binary(5), ZeroA(4)), Menu: menu, Bound: 1},
 		{Name: "hash-b2", Kinds: HashKinds, BufSizes: []int{3}, Level: 0, Inputs: Binary(4), Menu: menu, Bound: 2, NoTrack: true},
